@@ -767,6 +767,7 @@ def check(repo, run, tier):
     g(unitrules.node_init_table, repo, run, 'C07.R6')
     g(unitrules.strict_block_errors, repo, run, 'C07.R3')
     g(unitrules.add_multiple_sources_table, repo, run, 'C07.R6')
+    g(unitrules.promotion_keeps_safety, repo, run, 'C07.R5')
     g.done()
 
 
@@ -798,6 +799,7 @@ def mutants(repo):
         Mutant('include-drops-safe', lambda r: in_func(r, 'IncludeNode.ayns.on_preprocess_impl', ", safe=self.ayns.safe)", ")"), ['C07.R6']),
         Mutant('source-flag-or', lambda r: in_func(r, 'ConfigNode.default_safe_flag', "value and old", "value or old"), ['C07.R6']),
         Mutant('add_source-ignores-safe', lambda r: in_func(r, 'Builder.add_source', "default_safe_flag(safe and self._default_safe_flag)", "default_safe_flag(self._default_safe_flag)"), ['C07.R6']),
+        Mutant('promotion-forgets-source-level-safety', lambda r: in_func(r, 'ConfigNode._maybe_promote', "                other.update(self)\n            other.__dict__.update(self.__dict__)", "                other.update(self)\n            other.__dict__.update({k: v for k, v in self.__dict__.items() if k != '_default_safe'})"), ['C07.R5']),
         Mutant('adopt-overwrites-implicit-safe', lambda r: in_func(r, 'ConfigNodeMeta.__call__',
                "if arg_name == 'implicit_safe' and getattr(value, '_' + arg_name) is False:", "if False:"), ['C07.R7']),
         Mutant('F18-reverted-explicit-safe-lifts-unsafety', lambda r: in_func(r, 'ComposedNode._get_child_kwargs', "False if self._implicit_safe is False else notnone_or(self._safe, self._implicit_safe)", "notnone_or(self._safe, self._implicit_safe)"), ['C07.R7']),
